@@ -195,7 +195,7 @@ func run(r *vrt.Run) {
 	nCases := r.N(40, 2500)
 	nOps := r.N(15, 25)
 	if r.Race() {
-		nCases = r.N(5, 150)
+		nCases = r.N(7, 150)
 	}
 	only := -1
 	if v := os.Getenv("VERIF_ONLY"); v != "" {
@@ -213,7 +213,7 @@ func run(r *vrt.Run) {
 	if only < 0 {
 		q := int64(1)
 		if r.Race() {
-			q = 5 // the race variant runs an eighth of the cases
+			q = 10 // the race variant runs a sixth of the cases; coverage is carried by the default variant
 		}
 		r.Require("ops_insert_reorg", 20/q)
 		r.Require("ops_setcanonical_reorg", 10/q)
